@@ -1,7 +1,7 @@
 """C15 — flux unit conversions are mutually consistent and invertible.
 
 Correspondence: an SED stored in unit A (SED.write, which stores the unit string through
-to_string(format='fits')) is read back with SED.read(unit_flux=B) (parse_unit_safe + convert_flux) for every
+to_string(format='fits'); a share of the files is rewritten with the legacy spellings MICRONS / HZ / MJY / ergs/cm^2/s) is read back with SED.read(unit_flux=B) (parse_unit_safe + convert_flux) for every
 pair of A, B in {mJy, Jy, erg/cm^2/s, erg/s, W/m^2}, 1..5 apertures, any distance and frequency grid, both
 read orders; .flux and .error are compared with driver op `convert` (SF.convertFlux over exact rationals,
 unit scale factors as exact decimal rationals, nu = c/lambda and the distance in cm computed by astropy in
@@ -28,15 +28,19 @@ FAMILY = {'mJy': 'fnu', 'Jy': 'fnu', 'cgs': 'flux', 'SI': 'flux', 'lum': 'lum'}
 SCALE = {'mJy': Fraction(1, 10 ** 26), 'Jy': Fraction(1, 10 ** 23), 'cgs': Fraction(1), 'SI': Fraction(1000),
          'lum': Fraction(1)}
 BAD = ['K', 'm', 'Hz', 'g']
+LEGACY = {'mJy': 'MJY', 'cgs': 'ergs/cm^2/s'}      # legacy spellings in sed/helpers.py UNIT_MAPPING
 REQUIRED_BRANCHES = (['%s->%s' % (a, b) for a in ('fnu', 'flux', 'lum') for b in ('fnu', 'flux', 'lum')] +
                      ['refused', 'order_nu', 'order_wav', 'apertures_1', 'apertures_5', 'wav_increasing',
-                      'wav_decreasing', 'err_unit_same', 'err_unit_same_family', 'err_unit_cross_family'] + ['pair_%s_%s' % (a, b) for a in KEYS for b in KEYS])
+                      'wav_decreasing', 'legacy_units', 'legacy_MJY', 'legacy_ergs', 'err_unit_same', 'err_unit_same_family', 'err_unit_cross_family'] + ['pair_%s_%s' % (a, b) for a in KEYS for b in KEYS])
 ASSUMPTIONS = ['IEEE rounding is not modelled: values compared within 1e-9 relative',
                'frequencies and distance non-zero, finite positive fluxes',
                'scale factors of the five units are the exact decimal values (mJy = 1e-26, Jy = 1e-23 erg/cm^2/s/Hz, '
-               'W/m^2 = 1e3 erg/cm^2/s); astropy computes them in float']
+               'W/m^2 = 1e3 erg/cm^2/s); astropy computes them in float',
+               'the source-side refusal of convert_flux (stored unit of none of the three families) is unreachable through '
+               'the public API: the SED.flux / SED.error setters validate the physical type, so such a file cannot be '
+               'written with SED.write; only the target-side refusal is exercised (C15_refuse covers both in the model)']
 EXHAUSTIVE = {'quick': True, 'thorough': True}   # all 5 x 5 unit pairs are enumerated in both tiers
-N = {'quick': 270, 'thorough': 8000}
+N = {'quick': 290, 'thorough': 8000}
 DIST_UNITS = ['kpc', 'pc', 'cm', 'lyr']
 
 
@@ -47,7 +51,7 @@ def units():
             'kpc': u.kpc, 'pc': u.pc, 'cm': u.cm, 'lyr': u.lyr}
 
 
-def gen_case(rng, stored=None, requested=None, nap=None, order=None, wdir=None, stored_err=None):
+def gen_case(rng, stored=None, requested=None, nap=None, order=None, wdir=None, stored_err=None, legacy=None):
     stored = stored or rng.choice(KEYS)
     # the error column carries its own unit in the file; SED validates / writes / reads the two separately
     stored_err = stored_err or (stored if rng.random() < 0.5 else rng.choice(KEYS))
@@ -76,7 +80,8 @@ def gen_case(rng, stored=None, requested=None, nap=None, order=None, wdir=None, 
         aps.append(aps[-1] * 2)
     return dict(stored=stored, stored_err=stored_err, requested=requested, third=third, wav=wav, distance=dist, distance_unit=dunit,
                 apertures=aps if nap > 1 else None, flux=flux, err=err,
-                order=order or rng.choice(['nu', 'wav']))
+                order=order or rng.choice(['nu', 'wav']),
+                legacy=bool(rng.random() < 0.25 if legacy is None else legacy))
 
 
 def gen_cases(seed, tier):
@@ -95,6 +100,12 @@ def gen_cases(seed, tier):
                 rng = case_rng(seed, PID, i)
                 yield gen_case(rng, stored=a, stored_err=e, requested=KEYS[i % 5], nap=[1, 3][i % 2])
                 i += 1
+    # files carrying the legacy unit spellings of UNIT_MAPPING (MICRONS, HZ, MJY, ergs/cm^2/s)
+    for a in ('mJy', 'cgs'):
+        for b in KEYS:
+            rng = case_rng(seed, PID, i)
+            yield gen_case(rng, stored=a, requested=b, stored_err=a if i % 2 else ('cgs' if a == 'mJy' else 'mJy'), legacy=True)
+            i += 1
     for a, b in zip(KEYS, BAD + ['K']):
         rng = case_rng(seed, PID, i)
         yield gen_case(rng, stored=a, requested=b, stored_err=a)
@@ -116,6 +127,16 @@ def write_sed(case, path, unit):
         s.error = np.array(case['err'], dtype=float).reshape(s.flux.shape) * eu
     s.distance = case['distance'] * U[case['distance_unit']]
     s.write(path, overwrite=True)
+    if case.get('legacy'):
+        # the same file with the legacy unit spellings that parse_unit_safe maps (UNIT_MAPPING)
+        from astropy.io import fits
+        with fits.open(path, mode='update') as h:
+            h[1].header['TUNIT1'] = 'MICRONS'
+            h[1].header['TUNIT2'] = 'HZ'
+            for col, key in ((1, case['stored']), (2, case.get('stored_err', case['stored']))):
+                if key in LEGACY:
+                    h[3].header['TUNIT%d' % col] = LEGACY[key]
+            h.flush()
     return s
 
 
@@ -196,6 +217,16 @@ def run_case(case):
                               detail='SED.read(unit_flux=%s) of an SED stored in %s raised %s: %s' % (b, a, type(raised).__name__, raised))
         if want_f is None:
             return CaseResult(False, detail='model refused supported pair %s -> %s' % (a, b))
+        # the returned Quantities must carry the requested unit (values in another unit are not what was asked for)
+        if s.flux.unit != U[b] or s.error.unit != U[b]:
+            return CaseResult(False, violates=True, branches=sorted(branches),
+                              detail='SED.read(unit_flux=%s) returned flux in %s and error in %s (stored %s / %s)'
+                              % (U[b], s.flux.unit, s.error.unit, a, ae))
+        if case.get('legacy'):
+            branches.add('legacy_units')
+            for key in (a, ae):
+                if key in LEGACY:
+                    branches.add('legacy_' + LEGACY[key].split('/')[0])
         if not (allclose(got_f, want_f) and allclose(got_e, want_e)):
             what, got, want, src = ('flux', got_f, want_f, flux) if not allclose(got_f, want_f) else ('error', got_e, want_e, err)
             k = int(np.argmax(np.abs(got - np.array(want)) / np.abs(np.array(want)))) if got.shape == np.shape(want) else 0
